@@ -94,3 +94,20 @@ fn c00_setup_probe() {
     assert!(x as u16 <= 255);
 }
 
+
+// vacuity twin (thorough tier)
+#[kani::proof]
+#[kani::unwind(8)]
+#[kani::stub(std::fmt::format, stub_fmt_format)]
+#[kani::stub(uuid::Uuid::new_v4, stub_uuid_v4)]
+#[kani::stub(now_ms, stub_now_ms)]
+#[kani::stub(HookEngine::run, stub_hook_run)]
+#[kani::stub(alloc::string::ToString::to_string, stub_to_string)]
+fn c01tx_kernel_step_twin() {
+    let mut s = Session { id: String::new(), input: String::new(), seq: 3, stage: Stage::Output, hooks: Arc::new(HookEngine::new()) };
+    let out = s.next_event();
+    kani::cover!(out.is_some(), "frame emitted");
+    core::mem::forget(out);
+    core::mem::forget(s);
+    assert!(false, "vacuity-witness");
+}
